@@ -481,3 +481,29 @@ def ref_space(db, ctx):
                    fn=f, site=c.get("sp"))
     if not found:
         raise AnchorMissing("validate_entries: validate_wid(e.dic_form, ..)")
+
+
+BUFFERING = ("BufWriter::new", "BufWriter::with_capacity", "LineWriter::new", "LineWriter::with_capacity", "BufWriter<W>::new", "BufWriter<W>::with_capacity")
+
+
+@rule("C06.sink-buffered", "no buffering writer (BufWriter / LineWriter) is layered over the output sink in the build closure unless the same "
+                           "function flushes it (flush / into_inner) and propagates that Result — a BufWriter dropped with pending bytes "
+                           "swallows the sink's error")
+def sink_buffered(db, ctx):
+    n = 0
+    for f in _build_fns(db):
+        for c, ps in walk(f.hir):
+            if is_call(c) and any(path_ends(callee(c), b) for b in BUFFERING):
+                n += 1
+                flushed = False
+                for c2, ps2 in walk(f.hir):
+                    if c2.get("k") == "MethodCall" and c2.get("method") in ("flush", "into_inner") and ("BufWriter" in (c2.get("rty") or "") or "LineWriter" in (c2.get("rty") or "")):
+                        kind, det = consumer(c2, ps2)
+                        if kind in ("try", "return", "match"):
+                            flushed = True
+                ctx.ob("%s|%s" % (f.short(), short_path(callee(c))), flushed,
+                       "%s wraps the sink in `%s`; explicit flush()/into_inner() with a propagated Result in the same function: %s%s" % (
+                           f.short(), render(c)[:60], flushed,
+                           "" if flushed else " — BufWriter's Drop ignores io errors, so a sink failure while flushing the tail would be reported as success"),
+                       fn=f, site=c.get("sp"))
+    ctx.ob("buffering-writers-in-build", True, "%d buffering writers constructed in dic::build" % n, nontrivial=False)
